@@ -45,7 +45,9 @@ type TemplatedRegexp struct {
 }
 
 func (tr TemplatedRegexp) Expand(rule parser.Rule) (*regexp.Regexp, error) {
-	tctx := newTemplateContext(rule)
+	// Values taken from the rule are matched literally, any regexp metacharacters in
+	// a rule name or a label value must not change (or break) the pattern from the config.
+	tctx := newTemplateContext(rule).quoteMeta()
 	tmpl, err := newTemplateFromContext(tctx, tr.anchored)
 	if err != nil {
 		return nil, err
@@ -60,8 +62,14 @@ func (tr TemplatedRegexp) Expand(rule parser.Rule) (*regexp.Regexp, error) {
 	return regexp.Compile(buf.String())
 }
 
+// neverMatches is used when a pattern cannot be expanded for a specific rule.
+var neverMatches = regexp.MustCompile(`[^\s\S]`)
+
 func (tr TemplatedRegexp) MustExpand(rule parser.Rule) *regexp.Regexp {
-	re, _ := tr.Expand(rule)
+	re, err := tr.Expand(rule)
+	if err != nil {
+		return neverMatches
+	}
 	return re
 }
 
@@ -114,6 +122,24 @@ type TemplateContext struct {
 	Record      string
 	Expr        string
 	For         string
+}
+
+func (tc TemplateContext) quoteMeta() TemplateContext {
+	qc := TemplateContext{
+		Labels:      make(map[string]string, len(tc.Labels)),
+		Annotations: make(map[string]string, len(tc.Annotations)),
+		Alert:       regexp.QuoteMeta(tc.Alert),
+		Record:      regexp.QuoteMeta(tc.Record),
+		Expr:        regexp.QuoteMeta(tc.Expr),
+		For:         regexp.QuoteMeta(tc.For),
+	}
+	for k, v := range tc.Labels {
+		qc.Labels[k] = regexp.QuoteMeta(v)
+	}
+	for k, v := range tc.Annotations {
+		qc.Annotations[k] = regexp.QuoteMeta(v)
+	}
+	return qc
 }
 
 func (tc TemplateContext) Aliases() string {
